@@ -300,6 +300,9 @@ def install_python(ex, w):
     def from_long(ex_, name, a, at, rt):
         return w.new("int", a[0])
 
+    def from_size_t(ex_, name, a, at, rt):
+        return w.new("uint", a[0])
+
     def from_double(ex_, name, a, at, rt):
         return w.new("float", a[0])
 
@@ -549,6 +552,9 @@ def install_python(ex, w):
     S["PyTuple_Size"] = tuple_size
     S["PyDict_Size"] = dict_size
     S["PyLong_FromLong"] = from_long
+    S["PyLong_FromSsize_t"] = from_long
+    S["PyLong_FromSize_t"] = from_size_t
+    S["PyLong_FromUnsignedLong"] = from_size_t
     S["PyFloat_FromDouble"] = from_double
     S["PyBool_FromLong"] = bool_from_long
     S["PyUnicode_FromStringAndSize"] = str_from
@@ -1005,8 +1011,13 @@ class PyHarness(object):
                         if e.check(a_ != b_) == "sat":
                             return "the returned bool is not the library's result"
                     else:
-                        if k not in ("int", "float"):
+                        if k not in ("int", "float", "uint"):
                             return "a numeric result is returned as %s" % k
+                        unsigned = rp.tname in ("size_t", "unsigned int", "unsigned long", "unsigned", "uint64_t", "uint32_t")
+                        if unsigned and k == "int" and v.size() == 64 and lv.size() == 64 and e.check(v < 0) == "sat":
+                            return "an unsigned result (%s) is converted with a signed constructor: values >= 2**63 come out negative" % rp.tname
+                        if not unsigned and k == "uint" and e.check(v < 0) == "sat":
+                            return "a signed result (%s) is converted with an unsigned constructor" % rp.tname
                         a_, b_ = v, lv
                         if a_.size() != b_.size():
                             b_ = z3.SignExt(a_.size() - b_.size(), b_) if a_.size() > b_.size() else z3.Extract(a_.size() - 1, 0, b_)
@@ -1164,6 +1175,7 @@ def native_call(w):
                'int divide(int num, int *rem, int den, bool neg) { printf("LIB %d %d %d\\n", num, den, (int) neg); *rem = 13; return 6; }',
                'void fill2(int nrow, int ncol, double *out) { printf("LIB %d %d\\n", nrow, ncol); for (int i = 0; i < nrow * (ncol - 1); i++) out[i] = i; }',
                'int *getRow(int n) { static int row[4096]; printf("LIB %d\\n", n); return row; }',
+               'size_t findPos(int k) { printf("LIB %d\\n", k); return (size_t) -1; }',
                'int Tally::total() { printf("LIB\\n"); return 41; }',
                'int Tally::scaled(int k) { printf("LIB %d\\n", k); return 42; }',
                'int Tally::own() const { return 0; }',
@@ -1254,7 +1266,7 @@ def native_call(w):
             if got[:len(want)] != want:
                 return "%s: the library received %r natively, the call supplies %r" % (call, got, want)
             res = [l for l in out.splitlines() if l.startswith("RESULT")]
-            expect = {"Tally.total": "41", "Tally.scaled": "42", "tag": "(100, 'ab\\x00cd')", "countNames": "23", "add": "7", "scale": "2.5", "isPositive": "True", "noArgs": "None", "getName": "'nm'", "setName": "None", "len": "3",
+            expect = {"findPos": "18446744073709551615", "Tally.total": "41", "Tally.scaled": "42", "tag": "(100, 'ab\\x00cd')", "countNames": "23", "add": "7", "scale": "2.5", "isPositive": "True", "noArgs": "None", "getName": "'nm'", "setName": "None", "len": "3",
                       "divmod": "(11, 13)", "divide": "(6, 13)", "stride": "9", "toggle": "4", "pick": "3" if w["supplied"] == 3 else "1"}
             if w["function"] in expect and res and res[0].split(" ", 1)[1] != expect[w["function"]]:
                 return "%s returns %s natively, the library's result is %s" % (call, res[0].split(" ", 1)[1], expect[w["function"]])
